@@ -2,7 +2,11 @@ package rules
 
 import (
 	"fmt"
+	"go/token"
+	"go/types"
 	"reflect"
+	"sort"
+	"strconv"
 	"strings"
 
 	"golang.org/x/tools/go/ssa"
@@ -13,7 +17,7 @@ import (
 func init() {
 	Register(&Prop{
 		ID:   "C13",
-		Expl: "Decides the ordering and single-assignment structure behind the Liquid anchor: (R1) in the first action of both taker tables every success return is dominated by the nil-error edge of the anchor helper, and inside the helper every nil return on the Liquid-v7 side passes the stores to StartingBlockHeight (from GetBlockHeight) and StartingBlockHeightSet; (R2) in SendEvent every path from one Action.Execute to the next passes a Store.UpdateData whose failure returns, and the anchor-setting state sends nothing itself (the pubkey-bearing message is sent by a successor state); (R3) all stores to the two anchor fields are enumerated: taker-side stores are either in the helper (whose states are FailOnrecover, so never re-executed) or unreachable on the Liquid-v7 side; (R4) every claim-payment call is unreachable unless a window check that requires the anchor flag passed or the swap is not Liquid; (R5) both fields are exported, JSON-tagged and the flag is a plain bool.",
+		Expl: "Decides the ordering and single-assignment structure behind the Liquid anchor: (R1) in the first action of both taker tables every success return is dominated by the nil-error edge of the anchor helper (the outermost non-action function on the call chain from the action to the stores), and inside the helper every nil return on the Liquid-v7 side passes the stores to StartingBlockHeight (from GetBlockHeight) and StartingBlockHeightSet (stores made by a callee that stores on all of its paths count); (R2) in SendEvent every path from one Action.Execute to the next passes a Store.UpdateData (directly or through a callee that always calls it and propagates its error) whose failure returns, and the anchor-setting state sends nothing itself (the pubkey-bearing message is sent by a successor state); (R3) all stores to the two anchor fields are enumerated: taker-side stores are either in the helper (whose states are FailOnrecover, so never re-executed) or unreachable on the Liquid-v7 side; (R4) every claim-payment call is unreachable unless a window check that requires the anchor flag passed or the swap is not Liquid; (R5) both fields are exported, JSON-tagged and the flag is a plain bool.",
 		NotD: "Durability of bbolt itself; that json round-trips the two fields (C14).",
 		Run:  runC13,
 	})
@@ -22,7 +26,16 @@ func init() {
 const (
 	c13Height = "SwapData.StartingBlockHeight"
 	c13Flag   = "SwapData.StartingBlockHeightSet"
+	c13Depth  = 3
 )
+
+// c13HelperCall is a direct call, in a table action, of a non-action function
+// whose synchronous call tree stores an anchor field.
+type c13HelperCall struct {
+	ex     *ssa.Function
+	call   *ssa.Call
+	helper *ssa.Function
+}
 
 func runC13(c *an.Check) {
 	c.Rule("C13.R1", "taker create actions succeed only after the anchor helper succeeded; helper stores both fields on the Liquid-v7 side before returning nil")
@@ -58,16 +71,28 @@ func runC13(c *an.Check) {
 			writers[fn] = true
 		}
 	}
-	c.AtLeast("C13.R3", "functions storing the anchor fields", len(writers), 3)
-
-	// helper = a writer that is not itself an Execute method and is called from a taker create action
 	execFns := map[*ssa.Function]bool{}
 	for _, fn := range ts[0].F.Exec {
 		execFns[fn] = true
 	}
-	helperOK := map[*ssa.Function]bool{}
-	createExecs := map[*ssa.Function]string{}
+	// vacuity: table actions (not functions: a shared store helper must not lower
+	// the count) whose synchronous call tree stores an anchor field
+	anchorActions := map[*ssa.Function]bool{}
+	for _, t := range ts {
+		for _, s := range t.T.Order {
+			for _, fn := range t.Sum[s].Execs {
+				if c13Reaches(w, fn, writers) {
+					anchorActions[fn] = true
+				}
+			}
+		}
+	}
+	c.AtLeast("C13.R3", "table actions whose call tree stores the anchor fields", len(anchorActions), 4)
 
+	// ---- R1: the create states of the taker tables ------------------------------------
+	helperDone := map[*ssa.Function]bool{}
+	helpersOf := map[*ssa.Function]map[*ssa.Function]bool{} // create action -> its anchor helpers
+	createState := map[string]bool{}                        // table/state keys that set the anchor
 	for _, t := range tk {
 		def := t.T.States[""]
 		if def == nil {
@@ -77,181 +102,153 @@ func runC13(c *an.Check) {
 		for _, ev := range def.SortedEvents() {
 			s := def.Events[ev]
 			ss := t.Sum[s]
-			// is this the create state (sets the anchor)? cancel-only targets do not.
-			var helperCalls []an.EffectSite
-			for _, ef := range ss.Effects {
-				if ef.Info.Static != nil && writers[ef.Info.Static] && !execFns[ef.Info.Static] {
-					helperCalls = append(helperCalls, ef)
+			var hcs []c13HelperCall
+			for _, ex := range ss.Execs {
+				for _, call := range an.Calls(ex) {
+					cv, isCall := call.(*ssa.Call)
+					if !isCall {
+						continue
+					}
+					h := w.Info(call).Static
+					if h == nil || !w.InModule(h) || h.Blocks == nil || execFns[h] || !c13Reaches(w, h, writers) {
+						continue
+					}
+					hcs = append(hcs, c13HelperCall{ex, cv, h})
 				}
 			}
-			if len(helperCalls) == 0 {
-				if ss.Events[evSucceeded] && t.T.Reach(s)[t.statesWith(fxPay)[0]] && len(ss.Sites(fxAddTimeout)) > 0 {
-					c.Bad("C13.R1", t.key(s)+" sets-anchor", t.pos(c, s), "the first action of a taker table does not call an anchor-setting helper")
+			if len(hcs) == 0 {
+				pays := t.statesWith(fxPay)
+				isCreate := ss.Events[evSucceeded] && len(pays) > 0 && t.T.Reach(s)[pays[0]] && len(ss.Sites(fxAddTimeout)) > 0
+				if !isCreate {
+					continue // cancel-only targets do not set the anchor
+				}
+				reaches := false
+				for _, ex := range ss.Execs {
+					if c13Reaches(w, ex, writers) {
+						reaches = true
+					}
+				}
+				if reaches {
+					c.Unknown("C13.R1", t.key(s)+" sets-anchor", t.pos(c, s), "the first action of this taker table stores the anchor fields itself (or through a closure / dynamic call) instead of through a helper that reports an error: shape not interpreted")
+				} else {
+					c.Bad("C13.R1", t.key(s)+" sets-anchor", t.pos(c, s), "the first action of a taker table does not call an anchor-setting helper: no function in its synchronous call tree stores the anchor fields")
 				}
 				continue
 			}
+			createState[t.key(s)] = true
 			// R3: the state is FailOnrecover (never re-executed)
 			c.Decide(t.T.States[s].FailOnRecover, "C13.R3", t.key(s)+" FailOnrecover", t.pos(c, s), "anchor-setting state is never re-executed after a restart", "anchor-setting state is re-executed on recovery and would replace the anchor")
 			// R2: sends nothing itself
 			sends := len(ss.Sites(fxSendMessage)) > 0 || len(ss.Sites(fxAddSender)) > 0
 			c.Decide(!sends, "C13.R2", t.key(s)+" sends-nothing", t.pos(c, s), "the anchor-setting state only prepares the message; SendEvent persists before the next state sends it", "the anchor-setting action itself sends a message: the pubkey can leave before the anchor is stored")
-			for _, hc := range helperCalls {
-				helper := hc.Info.Static
-				call, isCall := hc.Info.Instr.(*ssa.Call)
-				if !isCall {
-					continue
+			for _, hc := range hcs {
+				if helpersOf[hc.ex] == nil {
+					helpersOf[hc.ex] = map[*ssa.Function]bool{}
 				}
-				ex := hc.In
-				createExecs[ex] = t.key(s)
-				okE, _ := an.OkEdges(call)
-				good := len(okE) > 0
-				for _, r := range an.Returns(ex) {
-					evs := map[string]bool{}
-					for _, res := range r.Results {
-						for _, e := range eventValues(w, res) {
-							evs[e] = true
-						}
-					}
-					if !(evs[evSucceeded] || evs["NEXT"]) {
-						continue
-					}
-					if !an.EdgesDominate(okE, r.Block()) {
-						good = false
-					}
-				}
-				c.Decide(good, "C13.R1", w.FuncName(ex)+" succeeds-after-anchor", w.Pos(call.Pos()),
-					"every success return is dominated by the nil-error edge of "+w.FuncName(helper),
-					"a success return of the create action is reachable without the anchor helper having succeeded")
-				c13Helper(c, lv, helper, helperOK)
+				helpersOf[hc.ex][hc.helper] = true
+				c13SucceedsAfter(c, hc)
+				c13Helper(c, lv, hc.helper, helperDone)
 			}
 		}
 	}
-	c.AtLeast("C13.R1", "taker create actions calling the anchor helper", len(createExecs), 2)
+	c.AtLeast("C13.R1", "taker create states calling an anchor helper", len(createState), 2)
 
-	// R3: every other writer
-	inTaker := map[*ssa.Function]string{}
+	// ---- R3: every other store ------------------------------------------------------------
+	takerStatesOf := map[*ssa.Function][]string{}
+	var takerExecs []*ssa.Function
 	for _, t := range tk {
 		for _, s := range t.T.Order {
 			for _, fn := range t.Sum[s].Execs {
-				inTaker[fn] = t.key(s)
+				if takerStatesOf[fn] == nil {
+					takerExecs = append(takerExecs, fn)
+				}
+				takerStatesOf[fn] = append(takerStatesOf[fn], t.key(s))
 			}
 		}
 	}
+	sort.Slice(takerExecs, func(i, j int) bool { return w.FuncName(takerExecs[i]) < w.FuncName(takerExecs[j]) })
+	covered := map[*ssa.Function]bool{} // writers reached from some table action
+	for fn := range anchorActions {
+		covered[fn] = true
+		for _, ef := range w.Summary(fn).Effects {
+			covered[ef.In] = true
+			if ef.Info.Static != nil {
+				covered[ef.Info.Static] = true
+			}
+		}
+	}
+	for _, ex := range takerExecs {
+		if !anchorActions[ex] {
+			continue
+		}
+		name := w.FuncName(ex)
+		// the verified helper of a create action is exempt only when the action is
+		// used by create states alone
+		skip := map[*ssa.Function]bool{}
+		onlyCreate := true
+		for _, k := range takerStatesOf[ex] {
+			if !createState[k] {
+				onlyCreate = false
+			}
+		}
+		if onlyCreate {
+			for h := range helpersOf[ex] {
+				skip[h] = true
+			}
+		}
+		bad, unk := c13LiquidSideStores(w, lv, ex, writers, skip, map[*ssa.Function]bool{}, 0)
+		switch {
+		case len(bad) > 0:
+			c.Bad("C13.R3", name+" writes-anchor", w.Pos(ex.Pos()), "a taker action can overwrite the persisted Liquid-v7 anchor: "+strings.Join(bad, "; "))
+		case len(unk) > 0:
+			c.Unknown("C13.R3", name+" writes-anchor", w.Pos(ex.Pos()), "cannot decide whether these stores run on the Liquid-v7 side: "+strings.Join(unk, "; "))
+		default:
+			c.OK("C13.R3", name+" writes-anchor", w.Pos(ex.Pos()), "stores are only reachable through a `chain != lbtc` / `version != 7` edge (or made by the verified anchor helper of a create state)")
+		}
+	}
+	var ws []*ssa.Function
 	for fn := range writers {
+		ws = append(ws, fn)
+	}
+	sort.Slice(ws, func(i, j int) bool { return w.FuncName(ws[i]) < w.FuncName(ws[j]) })
+	for _, fn := range ws {
 		name := w.FuncName(fn)
-		if helperOK[fn] {
-			continue
-		}
-		if !execFns[fn] {
-			// a non-action writer that no create action calls
-			called := false
-			for _, t := range tk {
-				for _, s := range t.T.Order {
-					for _, ef := range t.Sum[s].Effects {
-						if ef.Info.Static == fn {
-							called = true
-						}
-					}
-				}
-			}
-			if !called {
-				c.Bad("C13.R3", name+" writes-anchor", w.Pos(fn.Pos()), "the anchor fields are written by a function outside the state machines' actions")
+		if execFns[fn] {
+			if len(takerStatesOf[fn]) == 0 {
+				c.OK("C13.R3", name+" writes-anchor", w.Pos(fn.Pos()), "maker-side action (its own start height), not used by a taker table")
 			}
 			continue
 		}
-		if inTaker[fn] == "" {
-			c.OK("C13.R3", name+" writes-anchor", w.Pos(fn.Pos()), "maker-side action (its own start height), not used by a taker table")
-			continue
-		}
-		// taker-side action: stores must be unreachable on the Liquid-v7 side
-		cut := cutEdges(w, fn, lv.notLiquidV7)
-		bad := ""
-		for _, key := range []string{c13Height, c13Flag} {
-			for _, st := range storesTo(fn, key) {
-				if reachableAvoiding(st, nil, cut) {
-					bad += fmt.Sprintf(" store to %s at %s", key, w.Pos(st.Pos()))
-				}
-			}
-		}
-		c.Decide(bad == "", "C13.R3", name+" writes-anchor", w.Pos(fn.Pos()),
-			"stores are only reachable through a `chain != lbtc` / `version != 7` edge", "a taker action can overwrite the persisted Liquid-v7 anchor:"+bad)
-	}
-
-	// R2: SendEvent persists between actions
-	se := w.Func("swap", "(*SwapStateMachine).SendEvent")
-	if se == nil {
-		c.Anchor("(*SwapStateMachine).SendEvent does not resolve")
-	} else {
-		execs := callsNamed(w, se, fxActionExecute)
-		upd := callsNamed(w, se, fxStoreUpdate)
-		var updI []ssa.Instruction
-		for _, u := range upd {
-			updI = append(updI, u)
-		}
-		if len(execs) == 0 || len(upd) == 0 {
-			c.Anchor("SendEvent: Action.Execute / Store.UpdateData call not found")
-		}
-		for _, ex := range execs {
-			for _, ex2 := range execs {
-				c.Decide(!pathAvoiding(ex, ex2, updI), "C13.R2", "(*SwapStateMachine).SendEvent Execute->Execute", w.Pos(ex.Pos()),
-					"every path from one action to the next passes Store.UpdateData", "a path from one Action.Execute to the next skips the store write: the anchor would not be durable before the next action sends the pubkey")
-			}
-		}
-		for _, u := range upd {
-			uc, ok := u.(*ssa.Call)
-			if !ok {
-				continue
-			}
-			_, fail := an.OkEdges(uc)
-			good := len(fail) > 0
-			for _, fe := range fail {
-				reach := an.ReachBlocks([]*ssa.BasicBlock{fe.To()}, nil, nil)
-				for _, ex := range execs {
-					if reach[ex.Block()] {
-						good = false
-					}
-				}
-			}
-			c.Decide(good, "C13.R2", "(*SwapStateMachine).SendEvent UpdateData-error-returns", w.Pos(u.Pos()), "a failed store write stops the machine", "a failed store write does not stop the machine before the next action")
+		if !covered[fn] {
+			c.Bad("C13.R3", name+" writes-anchor", w.Pos(fn.Pos()), "the anchor fields are written by a function outside the state machines' actions")
 		}
 	}
 
-	// R4: no payment without the anchor flag
+	// ---- R2: SendEvent persists between actions ----------------------------------------------
+	c13SendEventPersists(c)
+
+	// ---- R4: no payment without the anchor flag ------------------------------------------------
 	nPay := 0
 	for _, fn := range prodFuncs(w) {
 		if w.FnRel(fn) != "swap" || isDummy(w, fn) {
 			continue
 		}
-		pays := callsNamed(w, fn, fxPay)
-		if len(pays) == 0 {
-			continue
-		}
-		// window checkers: in-module callees whose nil return requires the flag
-		cut := cutEdges(w, fn, lv.notLiquidV7)
-		for _, call := range an.Calls(fn) {
-			cv, ok := call.(*ssa.Call)
-			if !ok {
-				continue
-			}
-			ci := w.Info(cv)
-			if ci.Static == nil || !c13RequiresFlag(w, ci.Static) {
-				continue
-			}
-			okE, _ := an.OkEdges(cv)
-			for _, e := range okE {
-				cut[e] = true
-			}
-		}
-		for _, p := range pays {
+		for _, p := range callsNamed(w, fn, fxPay) {
 			nPay++
-			c.Decide(!reachableAvoiding(p, nil, cut), "C13.R4", w.FuncName(fn)+" pay-needs-anchor", w.Pos(p.Pos()),
-				"the payment call is reachable only for non-Liquid swaps or after a window check that requires StartingBlockHeightSet",
-				"a Liquid claim payment can be started without the anchor flag having been checked")
+			cons := w.FuncName(fn) + " pay-needs-anchor"
+			switch c13Protected(w, lv, fn, p, execFns, 0) {
+			case 1:
+				c.OK("C13.R4", cons, w.Pos(p.Pos()), "the payment call is reachable only for non-Liquid swaps or after a window check that requires StartingBlockHeightSet")
+			case 0:
+				c.Unknown("C13.R4", cons, w.Pos(p.Pos()), "the payment call is guarded by a check that reads StartingBlockHeightSet, but its shape (returned value / closure / caller chain) could not be interpreted")
+			default:
+				c.Bad("C13.R4", cons, w.Pos(p.Pos()), "a Liquid claim payment can be started without the anchor flag having been checked")
+			}
 		}
 	}
 	c.AtLeast("C13.R4", "claim payment call sites", nPay, 1)
 
-	// R5: persisted
+	// ---- R5: persisted ----------------------------------------------------------------------------
 	sd := w.Named("swap", "SwapData")
 	if sd == nil {
 		c.Anchor("swap.SwapData does not resolve")
@@ -270,28 +267,404 @@ func runC13(c *an.Check) {
 	}
 }
 
-// c13RequiresFlag: fn returns a non-nil error whenever StartingBlockHeightSet
-// is false (every nil-error return is dominated by the flag being true).
-func c13RequiresFlag(w *an.World, fn *ssa.Function) bool {
-	if fn.Blocks == nil {
-		return false
-	}
-	res := fn.Signature.Results()
-	if res.Len() != 1 || !an.IsErrorType(res.At(0).Type()) {
-		return false
-	}
-	nNil := 0
-	for _, r := range an.Returns(fn) {
-		if len(r.Results) != 1 || !an.IsNilConst(r.Results[0]) {
-			continue
+// c13NotLiquid extends liquidV7.notLiquidV7 (a `chain != lbtc` / `version != 7`
+// edge) by two equivalent shapes: `chain == <another chain constant>`, and a
+// boolean predicate helper (isLiquidSwap(), isLiquidV7(), isBitcoin()) whose
+// outcome on this edge implies one of these facts.
+func c13NotLiquid(w *an.World, lv liquidV7, depth int) func(an.Fact) bool {
+	return func(f an.Fact) bool {
+		if lv.notLiquidV7(f) {
+			return true
 		}
-		nNil++
-		fs := w.FactsDominatingBlock(r.Block())
-		if !an.AnyFact(fs, func(f an.Fact) bool { return an.AtomIs(f, c13Flag, true) }) {
+		if f.NonNum && f.Rel == "==" {
+			for _, pr := range [][2]string{{f.L, f.R}, {f.R, f.L}} {
+				if strings.Contains(pr[0], ").GetChain") {
+					if c, err := strconv.Unquote(pr[1]); err == nil && c != lv.lbtc {
+						return true
+					}
+				}
+			}
+		}
+		if (f.Rel == "true" || f.Rel == "false") && depth < 2 {
+			if call, ok := f.Cond.(*ssa.Call); ok {
+				g := w.Info(call).Static
+				if g != nil && w.InModule(g) && g.Blocks != nil {
+					return c13PredicateImpliesNotLiquid(w, lv, g, f.Rel == "true", depth+1)
+				}
+			}
+		}
+		return false
+	}
+}
+
+// c13PredicateImpliesNotLiquid: whenever the boolean function g returns truth,
+// the swap is not a Liquid-v7 swap.
+func c13PredicateImpliesNotLiquid(w *an.World, lv liquidV7, g *ssa.Function, truth bool, depth int) bool {
+	res := g.Signature.Results()
+	if res.Len() != 1 {
+		return false
+	}
+	if b, ok := res.At(0).Type().Underlying().(*types.Basic); !ok || b.Kind() != types.Bool {
+		return false
+	}
+	nl := c13NotLiquid(w, lv, depth)
+	pts := c13ResultPoints(g, 0)
+	for _, p := range pts {
+		if p.Weak {
+			return false
+		}
+		if an.AnyFact(p.facts(w), nl) {
+			continue // this return is only reached for non-Liquid-v7 swaps
+		}
+		if cv, ok := p.Val.(*ssa.Const); ok && cv.Value != nil {
+			if (cv.Value.String() == "true") != truth {
+				continue // returns the other outcome
+			}
+			return false
+		}
+		bo, ok := p.Val.(*ssa.BinOp)
+		if !ok || (bo.Op != token.EQL && bo.Op != token.NEQ) {
+			return false
+		}
+		// outcome of the comparison that makes g return truth
+		eq := (bo.Op == token.EQL) == truth // true: operands equal on the `truth` outcome
+		good := false
+		for _, pr := range [][2]ssa.Value{{bo.X, bo.Y}, {bo.Y, bo.X}} {
+			t := w.Term(pr[0])
+			if strings.Contains(t, ").GetChain") {
+				if c, ok := an.ConstString(pr[1]); ok {
+					// chain == c (eq) with c another chain, or chain != lbtc (!eq)
+					if (eq && c != lv.lbtc) || (!eq && c == lv.lbtc) {
+						good = true
+					}
+				}
+			}
+			if strings.Contains(t, ").GetProtocolVersion") {
+				if k, ok := an.ConstInt(pr[1]); ok && !eq && k == lv.version {
+					good = true
+				}
+			}
+		}
+		if !good {
 			return false
 		}
 	}
-	return nNil > 0
+	return len(pts) > 0
+}
+
+// c13Reaches: fn or a function in its synchronous in-module call tree is in set.
+func c13Reaches(w *an.World, fn *ssa.Function, set map[*ssa.Function]bool) bool {
+	if set[fn] {
+		return true
+	}
+	for _, ef := range w.Summary(fn).Effects {
+		if strings.HasPrefix(ef.Name, "go:") {
+			continue
+		}
+		if set[ef.In] || (ef.Info.Static != nil && set[ef.Info.Static]) {
+			return true
+		}
+	}
+	return false
+}
+
+// ---- returned errors and events, per incoming path -------------------------------------------
+
+// c13RetPoint is one (value, place) pair of a function result: a returned phi is
+// expanded into its incoming values at the end of the predecessor blocks.
+type c13RetPoint struct {
+	At   ssa.Instruction // executing At means "about to return Val"
+	Blk  *ssa.BasicBlock
+	Val  ssa.Value
+	Edge *an.Edge // for an expanded phi: the edge Blk -> return block on which Val is chosen
+	Weak bool     // the place is less precise than the value (defer-spilled result)
+}
+
+// behind: the point cannot be reached once the edges es are removed (they lie
+// on every path to it).
+func (p c13RetPoint) behind(es []an.Edge) bool {
+	if len(es) == 0 {
+		return false
+	}
+	if p.Edge != nil {
+		for _, e := range es {
+			if e == *p.Edge {
+				return true
+			}
+		}
+	}
+	return an.EdgesDominate(es, p.Blk)
+}
+
+// facts that hold when the point is reached.
+func (p c13RetPoint) facts(w *an.World) []an.Fact {
+	fs := w.FactsDominatingBlock(p.Blk)
+	if p.Edge != nil {
+		for _, f := range w.Facts(p.Blk.Parent()) {
+			if f.Edge == *p.Edge {
+				fs = append(fs, f)
+			}
+		}
+	}
+	return fs
+}
+
+// reachable: can the point be reached from the entry without executing an
+// instruction of via and without crossing a cut edge?
+func (p c13RetPoint) reachable(via []ssa.Instruction, cut map[an.Edge]bool) bool {
+	if p.Edge != nil && cut[*p.Edge] {
+		return false
+	}
+	return reachableAvoiding(p.At, via, cut)
+}
+
+func c13ResultPoints(fn *ssa.Function, idx int) []c13RetPoint {
+	var out []c13RetPoint
+	for _, r := range an.Returns(fn) {
+		if idx >= len(r.Results) {
+			continue
+		}
+		v := r.Results[idx]
+		if phi, ok := v.(*ssa.Phi); ok && phi.Block() == r.Block() {
+			for i, e := range phi.Edges {
+				pred := r.Block().Preds[i]
+				pt := c13RetPoint{At: pred.Instrs[len(pred.Instrs)-1], Blk: pred, Val: e}
+				for k, sc := range pred.Succs {
+					if sc == r.Block() {
+						pt.Edge = &an.Edge{From: pred, Idx: k}
+					}
+				}
+				out = append(out, pt)
+			}
+			continue
+		}
+		if ld, ok := v.(*ssa.UnOp); ok && ld.Op == token.MUL {
+			if al, ok := ld.X.(*ssa.Alloc); ok {
+				stores, fromEntry := an.StoresReaching(ld, al)
+				for _, s := range stores {
+					out = append(out, c13RetPoint{At: r, Blk: r.Block(), Val: s.Val, Weak: true})
+				}
+				if fromEntry || len(stores) == 0 {
+					out = append(out, c13RetPoint{At: r, Blk: r.Block(), Val: v, Weak: true})
+				}
+				continue
+			}
+		}
+		out = append(out, c13RetPoint{At: r, Blk: r.Block(), Val: v})
+	}
+	return out
+}
+
+// c13ErrPoints: result points of the trailing error result (nil if there is none).
+func c13ErrPoints(fn *ssa.Function) []c13RetPoint {
+	res := fn.Signature.Results()
+	if fn.Blocks == nil || res.Len() == 0 || !an.IsErrorType(res.At(res.Len()-1).Type()) {
+		return nil
+	}
+	return c13ResultPoints(fn, res.Len()-1)
+}
+
+// c13ErrClass classifies an error value v returned at point at: "nil",
+// "nonnil" or "maybe"; call is set when the value is the error result of a call.
+func c13ErrClass(w *an.World, v ssa.Value, at c13RetPoint, depth int) (string, *ssa.Call) {
+	if an.IsNilConst(v) {
+		return "nil", nil
+	}
+	var call *ssa.Call
+	switch x := v.(type) {
+	case *ssa.MakeInterface:
+		return "nonnil", nil
+	case *ssa.Extract:
+		if cv, ok := x.Tuple.(*ssa.Call); ok && x.Index == an.ErrResultIndex(cv) {
+			call = cv
+		}
+	case *ssa.Call:
+		call = x
+	case *ssa.Phi:
+		for _, e := range x.Edges {
+			if cl, _ := c13ErrClass(w, e, at, depth); cl != "nonnil" {
+				return "maybe", nil
+			}
+		}
+		return "nonnil", nil
+	}
+	if call == nil {
+		return "maybe", nil
+	}
+	ci := w.Info(call)
+	if ci.Name == "func:errors.New" || ci.Name == "func:fmt.Errorf" {
+		return "nonnil", call
+	}
+	okE, failE := an.OkEdges(call)
+	if at.behind(failE) {
+		return "nonnil", call
+	}
+	if at.behind(okE) {
+		return "nil", call
+	}
+	if g := ci.Static; g != nil && w.InModule(g) && g.Blocks != nil && depth < 2 {
+		pts := c13ErrPoints(g)
+		all := len(pts) > 0
+		for _, p := range pts {
+			if cl, _ := c13ErrClass(w, p.Val, p, depth+1); cl != "nonnil" {
+				all = false
+			}
+		}
+		if all {
+			return "nonnil", call
+		}
+	}
+	return "maybe", call
+}
+
+// ---- R1 ----------------------------------------------------------------------------------------
+
+// c13SucceedsAfter: every success return of the create action lies behind the
+// nil-error edge of the helper call.
+func c13SucceedsAfter(c *an.Check, hc c13HelperCall) {
+	w := c.W
+	cons := w.FuncName(hc.ex) + " succeeds-after-anchor"
+	pos := w.Pos(hc.call.Pos())
+	okE, _ := an.OkEdges(hc.call)
+	if len(okE) == 0 {
+		idx := an.ErrResultIndex(hc.call)
+		used := false
+		if idx >= 0 {
+			for _, rv := range an.ResultValues(hc.call, idx) {
+				if rv.Referrers() != nil && len(*rv.Referrers()) > 0 {
+					used = true
+				}
+			}
+		}
+		switch {
+		case idx < 0:
+			c.Unknown("C13.R1", cons, pos, "the outermost anchor helper "+w.FuncName(hc.helper)+" has no error result: shape not interpreted")
+		case !used:
+			c.Bad("C13.R1", cons, pos, "a success return of the create action is reachable without the anchor helper having succeeded (its error is discarded)")
+		default:
+			c.Unknown("C13.R1", cons, pos, "the error of "+w.FuncName(hc.helper)+" is not tested by a nil comparison: shape not interpreted")
+		}
+		return
+	}
+	bad, unk := false, false
+	res := hc.ex.Signature.Results()
+	for i := 0; i < res.Len(); i++ {
+		if !c13IsEventType(res.At(i).Type()) {
+			continue
+		}
+		for _, p := range c13ResultPoints(hc.ex, i) {
+			succ, maybe := false, false
+			for _, e := range eventValues(w, p.Val) {
+				switch e {
+				case evSucceeded, "NEXT":
+					succ = true
+				case "?":
+					maybe = true
+				}
+			}
+			if !(succ || maybe) || p.behind(okE) {
+				continue
+			}
+			if succ && !p.Weak {
+				bad = true
+			} else {
+				unk = true
+			}
+		}
+	}
+	switch {
+	case bad:
+		c.Bad("C13.R1", cons, pos, "a success return of the create action is reachable without the anchor helper having succeeded")
+	case unk:
+		c.Unknown("C13.R1", cons, pos, "a return whose event could not be resolved is reachable without the anchor helper having succeeded")
+	default:
+		c.OK("C13.R1", cons, pos, "every success return is dominated by the nil-error edge of "+w.FuncName(hc.helper))
+	}
+}
+
+func c13IsEventType(t types.Type) bool {
+	n, ok := t.(*types.Named)
+	return ok && n.Obj().Name() == "EventType"
+}
+
+// c13StorePoint is an instruction of fn after which field key has been stored:
+// a store, or a call of an in-module function that stores on every path to each
+// of its returns. Vals are the stored values, callee parameters replaced by the
+// call's arguments.
+type c13StorePoint struct {
+	At   ssa.Instruction
+	Vals []ssa.Value
+}
+
+func c13StorePoints(w *an.World, fn *ssa.Function, key string, depth int, seen map[*ssa.Function]bool) (pts []c13StorePoint, partial bool) {
+	if seen[fn] {
+		return nil, false
+	}
+	seen[fn] = true
+	defer delete(seen, fn)
+	for _, st := range storesTo(fn, key) {
+		pts = append(pts, c13StorePoint{At: st, Vals: []ssa.Value{st.(*ssa.Store).Val}})
+	}
+	for _, call := range an.Calls(fn) {
+		g := w.Info(call).Static
+		if g == nil || !w.InModule(g) || g.Blocks == nil {
+			continue
+		}
+		if _, isCall := call.(*ssa.Call); !isCall || depth >= c13Depth {
+			// go / defer / too deep: a store in there is not a store "before the return"
+			if len(w.FieldWriters(key)) > 0 && c13WritesKey(w, g, key) {
+				partial = true
+			}
+			continue
+		}
+		sub, subPartial := c13StorePoints(w, g, key, depth+1, seen)
+		if subPartial {
+			partial = true
+		}
+		if len(sub) == 0 {
+			continue
+		}
+		var via []ssa.Instruction
+		for _, sp := range sub {
+			via = append(via, sp.At)
+		}
+		rets := an.Returns(g)
+		all := len(rets) > 0
+		for _, r := range rets {
+			if !an.MustPassInstr(r, via) {
+				all = false
+			}
+		}
+		if !all {
+			partial = true
+			continue
+		}
+		var vals []ssa.Value
+		args := call.Common().Args
+		for _, sp := range sub {
+			for _, v := range sp.Vals {
+				if p, ok := v.(*ssa.Parameter); ok && p.Parent() == g {
+					for i, gp := range g.Params {
+						if gp == p && i < len(args) {
+							v = args[i]
+						}
+					}
+				}
+				vals = append(vals, v)
+			}
+		}
+		pts = append(pts, c13StorePoint{At: call, Vals: vals})
+	}
+	return pts, partial
+}
+
+// c13WritesKey: fn's synchronous call tree stores field key.
+func c13WritesKey(w *an.World, fn *ssa.Function, key string) bool {
+	set := map[*ssa.Function]bool{}
+	for _, st := range w.FieldWriters(key) {
+		set[st.Parent()] = true
+	}
+	return c13Reaches(w, fn, set)
 }
 
 // c13Helper checks the inside of the anchor helper.
@@ -299,50 +672,459 @@ func c13Helper(c *an.Check, lv liquidV7, helper *ssa.Function, done map[*ssa.Fun
 	if done[helper] {
 		return
 	}
+	done[helper] = true
 	w := c.W
 	name := w.FuncName(helper)
-	cut := cutEdges(w, helper, lv.notLiquidV7)
-	hs := storesTo(helper, c13Height)
-	fs := storesTo(helper, c13Flag)
-	good := len(hs) > 0 && len(fs) > 0
-	why := ""
-	if !good {
-		why = "helper does not store both fields"
+	cons := name + " stores-anchor"
+	pos := w.Pos(helper.Pos())
+	pts := c13ErrPoints(helper)
+	if pts == nil {
+		c.Unknown("C13.R1", cons, pos, "the anchor helper has no trailing error result: shape not interpreted")
+		return
+	}
+	cut := cutEdges(w, helper, c13NotLiquid(w, lv, 0))
+	hs, hPartial := c13StorePoints(w, helper, c13Height, 0, map[*ssa.Function]bool{})
+	fs, fPartial := c13StorePoints(w, helper, c13Flag, 0, map[*ssa.Function]bool{})
+	var bad, unk []string
+	note := func(definite bool, msg string) {
+		if definite {
+			bad = append(bad, msg)
+		} else {
+			unk = append(unk, msg)
+		}
+	}
+	if len(hs) == 0 {
+		note(!hPartial, "helper does not store the height on every path")
+	}
+	if len(fs) == 0 {
+		note(!fPartial, "helper does not store the flag on every path")
 	}
 	// value stored: height from GetBlockHeight, flag true
-	for _, s := range hs {
-		src := w.Sources(s.(*ssa.Store).Val, an.FlowOpts{})
-		if !(len(src.Leaves) == 1 && src.Has("call", fxBlockHeight+"#0")) {
-			good = false
-			why += " height stored from " + strings.Join(src.Names(), ",")
+	for _, sp := range hs {
+		for _, v := range sp.Vals {
+			src := w.Sources(v, an.FlowOpts{})
+			fromHeight, definite := len(src.Leaves) > 0, true
+			for _, l := range src.Leaves {
+				if !(l.Kind == "call" && l.Name == fxBlockHeight+"#0") {
+					fromHeight = false
+				}
+				switch l.Kind {
+				case "const", "zero", "call", "field", "global":
+				default:
+					definite = false
+				}
+			}
+			if !fromHeight {
+				note(definite && len(src.Leaves) > 0, "height stored from "+strings.Join(src.Names(), ","))
+			}
 		}
 	}
-	for _, s := range fs {
-		if cv, ok := s.(*ssa.Store).Val.(*ssa.Const); !ok || cv.Value == nil || cv.Value.String() != "true" {
-			good = false
-			why += " flag not stored as constant true"
+	for _, sp := range fs {
+		for _, v := range sp.Vals {
+			cv, isConst := v.(*ssa.Const)
+			if isConst && cv.Value != nil && cv.Value.String() == "true" {
+				continue
+			}
+			note(isConst, "flag not stored as constant true")
 		}
+	}
+	var hI, fI []ssa.Instruction
+	for _, sp := range hs {
+		hI = append(hI, sp.At)
+	}
+	for _, sp := range fs {
+		fI = append(fI, sp.At)
 	}
 	nNil := 0
-	for _, r := range an.Returns(helper) {
-		if len(r.Results) != 1 || !an.IsNilConst(r.Results[0]) {
+	for _, p := range pts {
+		class, call := c13ErrClass(w, p.Val, p, 0)
+		if class == "nonnil" {
 			continue
 		}
 		nNil++
-		if reachableAvoiding(r, hs, cut) {
-			good = false
-			why += " nil return at " + w.Pos(r.Pos()) + " reachable on the Liquid-v7 side without storing the height"
+		cutP := cut
+		definite := class == "nil" && !p.Weak && !hPartial && !fPartial
+		if class == "maybe" && call != nil {
+			// the value is nil only where the call's error was nil
+			_, failE := an.OkEdges(call)
+			cutP = map[an.Edge]bool{}
+			for e := range cut {
+				cutP[e] = true
+			}
+			for _, e := range failE {
+				cutP[e] = true
+			}
 		}
-		if reachableAvoiding(r, fs, cut) {
-			good = false
-			why += " nil return at " + w.Pos(r.Pos()) + " reachable on the Liquid-v7 side without setting the flag"
+		if len(hI) > 0 && p.reachable(hI, cutP) {
+			note(definite, "nil return at "+w.Pos(p.At.Pos())+" reachable on the Liquid-v7 side without storing the height")
+		}
+		if len(fI) > 0 && p.reachable(fI, cutP) {
+			note(definite, "nil return at "+w.Pos(p.At.Pos())+" reachable on the Liquid-v7 side without setting the flag")
 		}
 	}
 	if nNil == 0 {
-		good = false
-		why += " no nil return"
+		unk = append(unk, "no return of the helper could be recognised as a nil (success) return")
 	}
-	if c.Decide(good, "C13.R1", name+" stores-anchor", w.Pos(helper.Pos()), "on the Liquid-v7 side nil is returned only after both stores (height from GetBlockHeight, flag true)", strings.TrimSpace(why)) {
-		done[helper] = true
+	switch {
+	case len(bad) > 0:
+		c.Bad("C13.R1", cons, pos, strings.Join(append(bad, unk...), "; "))
+	case len(unk) > 0:
+		c.Unknown("C13.R1", cons, pos, strings.Join(unk, "; "))
+	default:
+		c.OK("C13.R1", cons, pos, "on the Liquid-v7 side nil is returned only after both stores (height from GetBlockHeight, flag true)")
 	}
+}
+
+// ---- R3 ----------------------------------------------------------------------------------------
+
+// c13LiquidSideStores lists the stores to the anchor fields in fn's synchronous
+// call tree that can execute without a `chain != lbtc` / `version != 7` edge
+// having been taken in the frame of the store or of a call leading to it.
+func c13LiquidSideStores(w *an.World, lv liquidV7, fn *ssa.Function, writers, skip, seen map[*ssa.Function]bool, depth int) (bad, unk []string) {
+	if seen[fn] {
+		return nil, nil
+	}
+	seen[fn] = true
+	cut := cutEdges(w, fn, c13NotLiquid(w, lv, 0))
+	for _, key := range []string{c13Height, c13Flag} {
+		for _, st := range storesTo(fn, key) {
+			if reachableAvoiding(st, nil, cut) {
+				bad = append(bad, fmt.Sprintf("store to %s at %s", key, w.Pos(st.Pos())))
+			}
+		}
+	}
+	for _, call := range an.Calls(fn) {
+		g := w.Info(call).Static
+		if g == nil || !w.InModule(g) || g.Blocks == nil || skip[g] || !c13Reaches(w, g, writers) {
+			continue
+		}
+		if !reachableAvoiding(call, nil, cut) {
+			continue
+		}
+		if depth >= c13Depth {
+			unk = append(unk, "call chain to "+w.FuncName(g)+" is too deep")
+			continue
+		}
+		b, u := c13LiquidSideStores(w, lv, g, writers, skip, seen, depth+1)
+		for _, x := range b {
+			bad = append(bad, x+" (via "+w.FuncName(g)+")")
+		}
+		unk = append(unk, u...)
+	}
+	// closures created here (deferred / passed on) that store
+	for _, af := range fn.AnonFuncs {
+		if c13Reaches(w, af, writers) && !seen[af] {
+			direct := false
+			for _, call := range an.Calls(fn) {
+				if w.Info(call).Static == af {
+					direct = true
+				}
+			}
+			if !direct {
+				unk = append(unk, "closure "+w.FuncName(af)+" stores an anchor field")
+			}
+		}
+	}
+	return bad, unk
+}
+
+// ---- R2 ----------------------------------------------------------------------------------------
+
+// c13PersistCallee: g always calls Store.UpdateData (itself or through such a
+// callee) before it returns, and returns a non-nil error whenever that call
+// failed.
+func c13PersistCallee(w *an.World, g *ssa.Function, depth int, seen map[*ssa.Function]bool) bool {
+	if g == nil || g.Blocks == nil || !w.InModule(g) || seen[g] || depth > c13Depth {
+		return false
+	}
+	seen[g] = true
+	defer delete(seen, g)
+	pts := c13ErrPoints(g)
+	if pts == nil {
+		return false
+	}
+	var upd []*ssa.Call
+	for _, call := range an.Calls(g) {
+		cv, ok := call.(*ssa.Call)
+		if !ok {
+			continue
+		}
+		ci := w.Info(call)
+		if ci.Name == fxStoreUpdate || (ci.Static != nil && ci.Static != g && w.Summary(ci.Static).HasEffect(fxStoreUpdate) && c13PersistCallee(w, ci.Static, depth+1, seen)) {
+			upd = append(upd, cv)
+		}
+	}
+	if len(upd) == 0 {
+		return false
+	}
+	var via []ssa.Instruction
+	for _, u := range upd {
+		via = append(via, u)
+	}
+	for _, r := range an.Returns(g) {
+		if !an.MustPassInstr(r, via) {
+			return false
+		}
+	}
+	// failure propagates: after u, a return either returns u's error, or lies
+	// behind u's nil-error edge, or returns a non-nil error behind its failure edge
+	for _, u := range upd {
+		okE, failE := an.OkEdges(u)
+		after := an.ReachBlocks([]*ssa.BasicBlock{u.Block()}, nil, nil)
+		for _, p := range pts {
+			if !after[p.Blk] {
+				continue
+			}
+			isU := false
+			switch x := p.Val.(type) {
+			case *ssa.Call:
+				isU = x == u
+			case *ssa.Extract:
+				isU = x.Tuple == ssa.Value(u) && x.Index == an.ErrResultIndex(u)
+			}
+			if isU {
+				continue
+			}
+			if p.behind(okE) {
+				continue
+			}
+			if cl, _ := c13ErrClass(w, p.Val, p, 0); cl == "nonnil" && p.behind(failE) {
+				continue
+			}
+			return false
+		}
+	}
+	return true
+}
+
+func c13SendEventPersists(c *an.Check) {
+	w := c.W
+	se := w.Func("swap", "(*SwapStateMachine).SendEvent")
+	if se == nil {
+		c.Anchor("(*SwapStateMachine).SendEvent does not resolve")
+		return
+	}
+	execs := callsNamed(w, se, fxActionExecute)
+	var upd []*ssa.Call
+	uninterpreted := ""
+	for _, call := range an.Calls(se) {
+		ci := w.Info(call)
+		cv, isCall := call.(*ssa.Call)
+		if ci.Name == fxStoreUpdate {
+			if isCall {
+				upd = append(upd, cv)
+			} else {
+				uninterpreted = "a deferred/asynchronous Store.UpdateData"
+			}
+			continue
+		}
+		g := ci.Static
+		if g == nil || g == se || !w.InModule(g) || g.Blocks == nil || !w.Summary(g).HasEffect(fxStoreUpdate) {
+			continue
+		}
+		if isCall && c13PersistCallee(w, g, 0, map[*ssa.Function]bool{}) {
+			upd = append(upd, cv)
+		} else {
+			uninterpreted = "the callee " + w.FuncName(g) + " reaches Store.UpdateData but does not always call it and propagate its error"
+		}
+	}
+	if len(execs) == 0 || len(upd) == 0 {
+		// never a violation alongside the unresolved anchor
+		c.Anchor("SendEvent: Action.Execute / Store.UpdateData call not found (directly or through a callee that always persists and propagates the error)")
+		return
+	}
+	var updI []ssa.Instruction
+	for _, u := range upd {
+		updI = append(updI, u)
+	}
+	skips := false
+	for _, ex := range execs {
+		for _, ex2 := range execs {
+			if pathAvoiding(ex, ex2, updI) {
+				skips = true
+			}
+		}
+	}
+	cons := "(*SwapStateMachine).SendEvent Execute->Execute"
+	pos := w.Pos(execs[0].Pos())
+	switch {
+	case !skips:
+		c.OK("C13.R2", cons, pos, "every path from one action to the next passes Store.UpdateData")
+	case uninterpreted != "":
+		c.Unknown("C13.R2", cons, pos, "a path from one Action.Execute to the next passes no recognised store write, but "+uninterpreted)
+	default:
+		c.Bad("C13.R2", cons, pos, "a path from one Action.Execute to the next skips the store write: the anchor would not be durable before the next action sends the pubkey")
+	}
+	for _, u := range upd {
+		okE, fail := an.OkEdges(u)
+		cons := "(*SwapStateMachine).SendEvent UpdateData-error-returns"
+		if len(fail) == 0 {
+			// the error is not tested by a nil comparison
+			used := false
+			for _, rv := range an.ResultValues(u, an.ErrResultIndex(u)) {
+				if rv.Referrers() != nil && len(*rv.Referrers()) > 0 {
+					used = true
+				}
+			}
+			if used || len(okE) > 0 {
+				c.Unknown("C13.R2", cons, w.Pos(u.Pos()), "the error of the store write is used but not tested by a nil comparison: shape not interpreted")
+			} else {
+				c.Bad("C13.R2", cons, w.Pos(u.Pos()), "a failed store write does not stop the machine before the next action (its error is discarded)")
+			}
+			continue
+		}
+		good := true
+		for _, fe := range fail {
+			reach := an.ReachBlocks([]*ssa.BasicBlock{fe.To()}, nil, nil)
+			for _, ex := range execs {
+				if reach[ex.Block()] {
+					good = false
+				}
+			}
+		}
+		c.Decide(good, "C13.R2", cons, w.Pos(u.Pos()), "a failed store write stops the machine", "a failed store write does not stop the machine before the next action")
+	}
+}
+
+// ---- R4 ----------------------------------------------------------------------------------------
+
+// c13RequiresFlag: fn returns a non-nil error whenever StartingBlockHeightSet
+// is false (every possibly-nil error return is dominated by the flag being
+// true, or is the result of a callee with that property). unknown is set when
+// the answer is no only because a returned value could not be interpreted.
+func c13RequiresFlag(w *an.World, fn *ssa.Function, depth int) (yes, unknown bool) {
+	if fn == nil || fn.Blocks == nil || !w.InModule(fn) {
+		return false, false
+	}
+	res := fn.Signature.Results()
+	if res.Len() != 1 || !an.IsErrorType(res.At(0).Type()) {
+		return false, false
+	}
+	n := 0
+	defNo, unk := false, false
+	for _, p := range c13ErrPoints(fn) {
+		class, call := c13ErrClass(w, p.Val, p, 0)
+		if class == "nonnil" {
+			continue
+		}
+		if an.AnyFact(p.facts(w), func(f an.Fact) bool { return an.AtomIs(f, c13Flag, true) }) {
+			n++
+			continue
+		}
+		if call != nil && depth < c13Depth {
+			if g := w.Info(call).Static; g != nil && g != fn {
+				y, u := c13RequiresFlag(w, g, depth+1)
+				if y {
+					n++
+					continue
+				}
+				okE, failE := an.OkEdges(call)
+				if !u && class == "maybe" && len(okE)+len(failE) == 0 && !p.Weak {
+					// `return g(...)` of a callee that can return nil without the flag
+					if pts := c13ErrPoints(g); len(pts) > 0 {
+						defNo = true
+						continue
+					}
+				}
+				unk = true
+				continue
+			}
+		}
+		if class == "nil" && call == nil && !p.Weak {
+			defNo = true // a literal `return nil` that is not behind the flag test
+		} else {
+			unk = true
+		}
+	}
+	if defNo {
+		return false, false
+	}
+	if unk {
+		return false, c13ReadsFlag(w, fn)
+	}
+	return n > 0, false
+}
+
+// c13ReadsFlag: the anchor flag is read somewhere in fn's synchronous call tree.
+func c13ReadsFlag(w *an.World, fn *ssa.Function) bool {
+	set := map[*ssa.Function]bool{}
+	for _, in := range w.FieldReaders(c13Flag) {
+		set[in.Parent()] = true
+	}
+	return c13Reaches(w, fn, set)
+}
+
+// c13Protected decides whether call site `site` in fn can execute for a Liquid
+// swap whose anchor flag was not checked: 1 protected, 0 cannot interpret,
+// -1 unprotected.
+func c13Protected(w *an.World, lv liquidV7, fn *ssa.Function, site ssa.Instruction, execFns map[*ssa.Function]bool, depth int) int {
+	cut := cutEdges(w, fn, c13NotLiquid(w, lv, 0))
+	cutMaybe := map[an.Edge]bool{}
+	hasMaybe := false
+	for _, call := range an.Calls(fn) {
+		cv, ok := call.(*ssa.Call)
+		if !ok {
+			continue
+		}
+		g := w.Info(cv).Static
+		if g == nil {
+			continue
+		}
+		yes, unknown := c13RequiresFlag(w, g, 0)
+		if !yes && !unknown {
+			continue
+		}
+		okE, _ := an.OkEdges(cv)
+		for _, e := range okE {
+			if yes {
+				cut[e] = true
+			} else {
+				cutMaybe[e] = true
+				hasMaybe = true
+			}
+		}
+	}
+	if !reachableAvoiding(site, nil, cut) {
+		return 1
+	}
+	verdict := -1
+	if hasMaybe {
+		for e := range cut {
+			cutMaybe[e] = true
+		}
+		if !reachableAvoiding(site, nil, cutMaybe) {
+			verdict = 0
+		}
+	}
+	if verdict == 0 {
+		return 0
+	}
+	// the guard may be in the callers: a payment helper, or a closure
+	if fn.Parent() != nil {
+		return 0
+	}
+	if execFns[fn] || depth >= c13Depth {
+		return -1
+	}
+	var callers []ssa.CallInstruction
+	for _, f2 := range prodFuncs(w) {
+		if isDummy(w, f2) {
+			continue
+		}
+		for _, call := range an.Calls(f2) {
+			if call.Common().StaticCallee() == fn {
+				callers = append(callers, call)
+			}
+		}
+	}
+	if len(callers) == 0 {
+		return -1
+	}
+	worst := 1
+	for _, call := range callers {
+		if v := c13Protected(w, lv, call.Parent(), call, execFns, depth+1); v < worst {
+			worst = v
+		}
+	}
+	return worst
 }
